@@ -21,6 +21,11 @@ def step (_ : Unit) (j : Json) : Except String (Unit × Drv.Out) := do
   if op != "ws" then throw s!"unknown op {op}"
   let frames ← asArr (← fld j "frames")
   let mut o : Drv.Out := { nontrivial := true }
+  let posNum : Json → Bool := fun x => match x with
+    | .num n => decide (n.mantissa > 0)
+    | _ => false
+  if posNum (fldD j "ping_ms") then o := o.tag "session.ping-every-15ms"
+  if posNum (fldD j "burst") then o := o.tag "session.small-rate-burst"
   let mut idx := 0
   let mut expectedInbound : List ClientMsg := []
   for f in frames do
